@@ -9,6 +9,7 @@ TV   : limit_df / limit_signal / split_samples_df / drop_samples_df / flatten_df
 import numpy as np
 
 import mc_tables
+import plots_tv as pv
 import project as pj
 import tables_tv as tt
 
@@ -28,6 +29,15 @@ def run_tv(ctx, n_tables, max_len=800):
         wins = [(None, None), (None, 2 * int(nxt[len(nxt) // 2])), (2 * int(last[len(last) // 3]), None),
                 (2 * int(last[1]), 2 * int(nxt[-2])), (2 * int(last[1]) + 1, 2 * int(nxt[-2]) - 1),
                 (2 * int(rng.integers(0, n // 2)), 2 * int(rng.integers(n // 2, n))), (2 * int(last[0]) + 2, 2 * int(last[0]) + 4), (0, 0)]
+        if not dyadic_fs:
+            # ... and limits ON sample times s / fs (the property's wording) at these rates: judged like every other window when fs * (s / fs) == s for both
+            # limits; otherwise the case carries the class of the rounding (open finding F15: limit_df compares samples with the product fs * limit)
+            for a, b in ((int(last[1]), int(nxt[-2])), (int(last[len(last) // 2]), None), (None, int(nxt[len(nxt) // 2])), (int(last[2 % len(last)]), int(nxt[-1]))):
+                reset = bool(rng.integers(0, 2))
+                exact = pv.exact_window(n, fs, a, b)
+                recs.append(tt.record_limit(df, fs, None if a is None else 2 * a, None if b is None else 2 * b, reset, lab=len(recs) // 2))
+                metas.append({'kind': c['kind'], 'centre': c['opts']['center_extrema'], 'fs': fs, 'a2': None if a is None else 2 * a, 'b2': None if b is None else 2 * b, 'reset': reset, 'cycles': len(df),
+                              'on_grid': True, 'key_suffix': '' if exact else '.fs_times_limit_inexact_' + pv.inexact_direction(n, fs, a, b)})
         for a2, b2 in wins:
             if not dyadic_fs:
                 # sampling rates for which fs * (s / fs) need not equal s: limits are given half a sample off the grid (odd half-sample units), so that
